@@ -599,8 +599,9 @@ MPS_NAME = "c13mps"
 
 
 def _ensure_mps(app):
-    """a two-Period multi-period stream (bbb then tears, the second with a source offset) created
-    through the application's models; returns [(period pk, stream directory)]"""
+    """a three-Period multi-period stream (bbb, tears with a source offset, bbb again with a source
+    offset – so two Periods are made from the same stored fragments) created through the
+    application's models; returns [(period pk, stream directory)]"""
     import datetime
     with app.ctx() as models:
         from dashlive.mpeg.dash.content_role import ContentRole
@@ -608,7 +609,7 @@ def _ensure_mps(app):
         if mps is None:
             mps = models.MultiPeriodStream(name=MPS_NAME, title="C13 ranges")
             models.db.session.add(mps)
-            for idx, (directory, start_s, dur_s) in enumerate((("bbb", 0, 20), ("tears", 8, 16)), start=1):
+            for idx, (directory, start_s, dur_s) in enumerate((("bbb", 0, 20), ("tears", 8, 16), ("bbb", 8, 16)), start=1):
                 stream = models.Stream.get(directory=directory)
                 prd = models.Period(pid=f"p{idx}", parent=mps, ordering=idx, stream=stream,
                                     start=datetime.timedelta(seconds=start_s),
@@ -733,6 +734,7 @@ def compact_headers(ctx, res: Resource, rng):
     for a in vs:
         hs += [f"bytes={a}-", f"bytes=-{a}"]
         hs += [f"bytes={a}-{b}" for b in vs]
+    hs += header_region_headers(rng, n)
     for w in rng.sample(VARIANT_WRAPS, 3):
         hs.append(w(rng.choice(vs), rng.choice(vs + [""])))
     hs += rng.sample(MALFORMED + UNICODE, ctx.scale(10, 40))
@@ -820,6 +822,182 @@ def e2e_headers(ctx, res: Resource, rng):
     return hs
 
 
+def header_region_headers(rng, n, extra=3):
+    """ranges over the first bytes of a segment (styp/sidx/moof: mfhd sequence number, tfdt decode
+    time – the part that differs between segments made from the same stored fragment)"""
+    hs = ["bytes=0-99", "bytes=20-79", "bytes=0-255", "bytes=16-31", "bytes=64-127"]
+    for _ in range(extra):
+        a = rng.randrange(0, min(200, max(1, n)))
+        hs.append(f"bytes={a}-{a + rng.randrange(0, 120)}")
+    return hs
+
+
+def group_headers(ctx, rng, n):
+    hs = header_region_headers(rng, n, extra=ctx.scale(4, 12))
+    vs = [0, 1, n // 2, n - 1, n, n + 1]
+    hs += [None, "bytes=0-", f"bytes=-{n}", f"bytes=-{n + 7}", "bytes=-1", f"bytes={n // 2}-", f"bytes={n}-",
+           f"bytes=0-{n}", f"bytes=1-{n - 1}", "bytes=-0", "bytes=7-5", "Bytes= 3 - 90", "bytes=a-b", "bytes=0-9,20-29"]
+    for _ in range(ctx.scale(3, 12)):
+        a, b = rng.choice(vs), rng.choice(vs)
+        hs.append(f"bytes={a}-{b}")
+    rng.shuffle(hs)
+    return hs
+
+
+def _cluster(client, urls):
+    """URLs whose un-ranged bodies have the same length and the same second half (same stored
+    fragment, possibly different moof header) → lists of ≥ 2 distinct URLs"""
+    import hashlib
+    cl = {}
+    for u in urls:
+        r = client.get(u)
+        if r.status_code != 200 or len(r.data) < 200:
+            continue
+        key = (len(r.data), hashlib.sha1(r.data[len(r.data) // 2:]).hexdigest())
+        cl.setdefault(key, []).append((u, r.data))
+    return [v for v in cl.values() if len(v) >= 2]
+
+
+def sibling_groups(ctx, app, client, ch=None):
+    """groups of URLs that are generated from the same stored fragment: other loop of a live stream,
+    vod vs live route, two Periods of a multi-period stream, other option vector"""
+    rng = ctx.rng("e2e-groups")
+    many = ctx.thorough
+    q = f"start={LIVE_START}"
+    groups = []     # (tag, [url, ...])
+    specs = [("bbb", "bbb_v7", "m4v"), ("bbb", "bbb_a1", "m4a"), ("tears", "tears_v1", "m4v"), ("bbb", "bbb_t1", "mp4")]
+    for stream, name, ext in specs if many else specs[:2]:
+        with app.ctx() as models:
+            rep = models.MediaFile.get(name=name).representation
+            nseg, segdur, ts = rep.num_media_segments, rep.segment_duration, rep.timescale
+        guess = 25 * 3600 * ts // segdur
+        base = guess - 3 - rng.randrange(0, nseg)
+        cand = [f"/dash/live/{stream}/{name}/{base - j * nseg}.{ext}?{q}" for j in range(3)]
+        cand += [f"/dash/vod/{stream}/{name}/{k}.{ext}?{q}" for k in range(1, nseg + 1)]
+        for members in _cluster(client, cand):
+            urls = [u for u, _ in members]
+            if any("/live/" in u for u in urls):
+                groups.append(("loops+vod/live", urls[:4]))
+    try:
+        pks = [pk for pk, d in _ensure_mps(app) if d == "bbb"]
+        for name, ext in [("bbb_v7", "m4v"), ("bbb_a1", "m4a")][: 2 if many else 1]:
+            cand = [f"/mps/vod/{MPS_NAME}/{pk}/{name}/{k}.{ext}" for pk in pks for k in range(1, 9)]
+            cand += [f"/dash/vod/bbb/{name}/{k}.{ext}" for k in range(1, 11)]
+            cl = [m for m in _cluster(client, cand) if sum("/mps/" in u for u, _ in m) >= 2]
+            rng.shuffle(cl)
+            for members in cl[: 3 if many else 1]:
+                groups.append(("periods+vod", [u for u, _ in members][:4]))
+    except Exception as e:
+        if ch is not None:
+            ch.errors.append(f"multi-period groups: {type(e).__name__}: {e}")
+    k = rng.randrange(1, 11)
+    groups.append(("option-vectors", [f"/dash/vod/bbb/bbb_v7/{k}.m4v", f"/dash/vod/bbb/bbb_v7/{k}.m4v?vcorrupt={k}",
+                                      f"/dash/vod/bbb/bbb_v7/{k}.m4v?events=ping", f"/dash/live/bbb/bbb_v7/{k}.m4v?start=epoch"]))
+    return groups
+
+
+def run_group(ctx, client, ch: Channel, tag, urls, rng):
+    """interleaved history: every ranged request for one URL directly follows a (ranged or un-ranged)
+    request for a sibling made from the same stored fragment; the full representation of each URL
+    is fetched before AND after the whole sequence and every answer is judged against its own URL"""
+    before = {}
+    history = []        # every request issued, in order: [url, header]
+    for u in urls:
+        r = client.get(u)
+        history.append([u, None])
+        if r.status_code == 200:
+            before[u] = r.data
+    urls = [u for u in urls if u in before]
+    if len(urls) < 2:
+        ch.count(f"group-skipped:{tag}")
+        return
+    n0 = len(before[urls[0]])
+    hs = group_headers(ctx, rng, n0)
+    answers = []        # (index into history, url, header, observation)
+    for i, h in enumerate(hs):
+        order = urls[i % len(urls):] + urls[:i % len(urls)]
+        for j, u in enumerate(order):
+            if rng.random() < .3:       # an un-ranged request for a sibling in between
+                sib = order[j - 1]
+                client.get(sib)
+                history.append([sib, None])
+            o = e2e_get(client, Resource("seg", u, before[u], False), h)
+            if o is None:
+                continue
+            history.append([u, h])
+            answers.append((len(history) - 1, u, h, o))
+    after = {u: client.get(u).data for u in urls}
+    lines, idx = [], []
+    for a, (pos, u, h, o) in enumerate(answers):
+        if in_model_domain(h):
+            lines.append(f"rangeresp seg {LIM} {len(before[u])} {enc_hdr(h)}")
+            idx.append(a)
+    try:
+        model = dict(zip(idx, run_model(lines)))
+    except Exception as e:
+        ch.errors.append(f"driver: {e}")
+        model = {}
+    ch.count(f"interleaved-group:{tag}")
+    for a, (pos, u, h, o) in enumerate(answers):
+        ch.evaluations += 1
+        ch.count(f"interleaved:{tag}:status:{o['status']}")
+        res = Resource("seg", u, before[u], False, tag=tag)
+        why = judge(h, res.length, obs_e2e(o, res), False)
+        if why is not None and after[u] != before[u]:
+            ch.count("un-ranged-representation-changed-during-the-sequence")
+            res2 = Resource("seg", u, after[u], False, tag=tag)
+            why = why if judge(h, res2.length, obs_e2e(o, res2), False) is not None else None
+        if why is not None:
+            _record(ch.oracle_failures, ch, "oracle_failures",
+                    lambda: seq_failure(client, u, h, history[:pos], why, o,
+                                        shrink=len(ch.oracle_failures) < MAX_SHRUNK))
+        if a in model:
+            impl = canon_e2e(o, res, model[a])
+            if impl != model[a]:
+                _record(ch.disagreements, ch, "disagreements",
+                        {"kind": "e2e-seq", "url": u, "header": hdr_json(h), "clock": CLOCK0,
+                         "history": history[max(0, pos - 2):pos], "model": model[a], "impl": impl})
+            if o["status"] in (206, 416):
+                ch.nontrivial.add((u, h, "after", history[pos - 1][0] if pos else ""))
+
+
+def replay_sequence(client, url, hdr, history):
+    """fresh ordering: full representation of `url`, the history, the ranged request, the full
+    representation again → (why, observation)"""
+    r = client.get(url)
+    if r.status_code != 200:
+        return None, {"note": f"un-ranged GET of {url} answered {r.status_code}"}
+    for u, h in history:
+        client.get(u, headers={} if h is None else {"Range": h})
+    res = Resource("seg", url, r.data, False)
+    o = e2e_get(client, res, hdr)
+    if o is None:
+        return None, {"note": "header cannot be delivered"}
+    why = judge(hdr, res.length, obs_e2e(o, res), False)
+    r2 = client.get(url)
+    if why is not None and r2.data != r.data:
+        res2 = Resource("seg", url, r2.data, False)
+        if judge(hdr, res2.length, obs_e2e(o, res2), False) is None:
+            why = None
+    return why, o
+
+
+def seq_failure(client, url, hdr, history, why, o, shrink=True):
+    """minimal request sequence: the shortest suffix of the history that still makes the ranged
+    request fail when replayed in a fresh ordering"""
+    hist = history[-6:]
+    if shrink:
+        for k in range(0, len(hist) + 1):
+            w2, o2 = replay_sequence(client, url, hdr, hist[len(hist) - k:])
+            if w2 is not None:
+                hist, why, o = hist[len(hist) - k:], w2, o2
+                break
+    return {"kind": "e2e-seq", "url": url, "header": hdr_json(hdr), "clock": CLOCK0, "history": hist,
+            "length": None, "what": why,
+            "observed": {"status": o["status"], "content_range": o["cr"], "content_length": o["clen"],
+                         "body_len": len(o["body"])}}
+
+
 def run_e2e(ctx, ch: Channel):
     import appboot
     app = appboot.get_app(("bbb", "tears"))
@@ -882,6 +1060,12 @@ def run_e2e(ctx, ch: Channel):
                 if o["status"] == 206 and classify(h)[0] != "other":
                     ch.sample({"url": res.url, "header": h, "status": 206, "content_range": o["cr"],
                                "content_length": o["clen"]}, limit=4)
+        groups = sibling_groups(ctx, app, client, ch)
+        if sum(1 for t, _ in groups if t != "option-vectors") < 2:
+            ch.errors.append(f"fewer than 2 groups of URLs sharing a stored fragment could be built ({groups})")
+        grng = ctx.rng("e2e-group-run")
+        for tag, urls in groups:
+            run_group(ctx, client, ch, tag, urls, grng)
 
 
 # --------------------------------------------------------------------------
@@ -916,8 +1100,13 @@ def channels(ctx):
         "is compared with it by the RFC 7233 oracle and with the model's whole response. Routes: vod/live segments "
         "by number and by $Time$, on-demand files, multi-period (/mps) segments, init segments (oracle only); "
         "option vectors that alter the served body: vcorrupt naming the requested segment (+frames), events=ping/"
-        "scte35 (in-band emsg), drm=playready/clearkey/marlin/all on encrypted files, bugs=saio; non-trivial = 206 "
-        "or 416; distinct by (url, header)"))
+        "scte35 (in-band emsg), drm=playready/clearkey/marlin/all on encrypted files, bugs=saio. Interleaved histories: "
+        "groups of URLs generated from the same stored fragment (other loop of a live stream, vod vs live route, "
+        "two Periods of a multi-period stream, other option vector; found by clustering un-ranged bodies) are "
+        "requested in rotation, every ranged request directly after a ranged or un-ranged request for a sibling, "
+        "with header-region ranges (0-99, 20-79, ...); each answer is judged against the full representation of ITS "
+        "OWN url fetched before and after the sequence; a failure's replay carries the request sequence. "
+        "non-trivial = 206 or 416; distinct by (url, header[, preceding url])"))
     try:
         run_e2e(ctx, ch2)
     except Exception as e:
@@ -937,6 +1126,19 @@ def _witness_header(w):
 def run_case(case):
     """re-run one pure / e2e case on the real code through the oracle → (fails, detail)"""
     hdr = _witness_header(case)
+    if case.get("kind") == "e2e-seq":
+        import appboot
+        app = appboot.get_app(("bbb", "tears"))
+        client = app.client()
+        with appboot.Clock(case.get("clock", CLOCK0)):
+            if any(u.startswith("/mps/") for u, _ in case.get("history", []) + [[case["url"], None]]):
+                _ensure_mps(app)
+            why, o = replay_sequence(client, case["url"], hdr, case.get("history", []))
+            if "note" in o:
+                return False, o
+            return why is not None, {"what": why, "status": o["status"], "content_range": o["cr"],
+                                     "content_length": o["clen"], "body_len": len(o["body"]),
+                                     "history": case.get("history", [])}
     if case.get("kind") == "e2e":
         import appboot
         app = appboot.get_app(("bbb", "tears"))
@@ -968,7 +1170,7 @@ def search(ctx, disagreements):
     rng = ctx.rng("search")
     # 1. the disagreeing inputs themselves
     for d in disagreements:
-        if "header" in d and d.get("kind") in ("pure", "e2e"):
+        if "header" in d and d.get("kind") in ("pure", "e2e", "e2e-seq"):
             fails, det = run_case(d)
             if fails:
                 return dict(d, **det)
@@ -1000,6 +1202,11 @@ def search(ctx, disagreements):
                 o, why = judge_e2e(client, res, h)
                 if why is not None:
                     return e2e_failure(client, res, h, why, o)
+        probe = Channel("search-groups")
+        for tag, urls in sibling_groups(ctx, app, client):
+            run_group(ctx, client, probe, tag, urls, rng)
+            if probe.oracle_failures:
+                return probe.oracle_failures[0]
     return None
 
 
@@ -1008,7 +1215,7 @@ def replay(ctx, payload):
     if "header" not in f and "header_repeat" not in f:
         return {"fails": False, "note": "replay names a broken obligation, no input", "payload": payload.get("broken")}
     fails, det = run_case(f)
-    return {"fails": fails, "case": {k: f.get(k) for k in ("kind", "url", "header", "length", "clock")}, **det}
+    return {"fails": fails, "case": {k: f.get(k) for k in ("kind", "url", "header", "length", "clock", "history") if k in f}, **det}
 
 
 def replay_finding(ctx, finding):
